@@ -262,7 +262,7 @@ def pure_expr(e):
 PURE_METHODS = {"len", "is_empty", "as_bytes", "bytes", "as_str", "clone", "into", "to_string", "into_owned",
                 "is_ascii_digit", "is_ascii", "position", "starts_with", "ends_with", "encoded", "to_owned", "as_ref",
                 "rsplit_once", "split_once", "find", "strip_prefix", "strip_suffix", "copied", "tokens", "into_inner",
-                "checked_add", "zip"}
+                "checked_add", "zip", "saturating_sub", "checked_sub", "min", "max", "contains", "then_some"}
 
 
 class Emitter:
@@ -608,6 +608,20 @@ class Emitter:
                                               lambda t, ty: f"if {t} then {k(f'(Some {x})', rty)} else {k('None', rty)}")
                     return f"match {rt} with Some {x} => {some} | None => {k('None', rty)} end"
                 if base in ("copied", "cloned"): return k(rt, rty)
+                if base == "or_else" and len(args) == 1:
+                    return f"match {rt} with Some {x} => {k(f'(Some {x})', rty)} | None => {self.apply_closure(args[0], [], env, cx, k)} end"
+                if base == "or" and len(args) == 1:
+                    return f"match {rt} with Some {x} => {k(f'(Some {x})', rty)} | None => {self.tr(args[0], env, cx, k)} end"
+                if base == "unwrap_or" and len(args) == 1:
+                    return f"match {rt} with Some {x} => {k(x, rty[1])} | None => {self.tr(args[0], env, cx, k)} end"
+                if base == "unwrap_or_else" and len(args) == 1:
+                    return f"match {rt} with Some {x} => {k(x, rty[1])} | None => {self.apply_closure(args[0], [], env, cx, k)} end"
+                if base == "unwrap_or_default" and not args and rty[1] == "N":
+                    return k(f"(match {rt} with Some {x} => {x} | None => 0 end)", "N")
+                if base == "and_then" and len(args) == 1:
+                    return f"match {rt} with Some {x} => {self.apply_closure(args[0], [(x, rty[1])], env, cx, k)} | None => {k('None', ('opt', '?'))} end"
+                if base == "is_some_and" and len(args) == 1:
+                    return f"match {rt} with Some {x} => {self.apply_closure(args[0], [(x, rty[1])], env, cx, k)} | None => {k('false', 'bool')} end"
                 if base == "is_some": return k(f"(match {rt} with Some _ => true | None => false end)", "bool")
                 if base == "is_none": return k(f"(match {rt} with Some _ => false | None => true end)", "bool")
             if base in ("len",) and (is_str(rty) or rty == "Cow"): return k(f"(len {self.coerce(rt, rty, 'str')})", "N")
@@ -633,6 +647,13 @@ class Emitter:
                 return f"match {rt} with Some {x} => {some} | None => {self.tr(args[0], env, cx, k)} end"
             if name == "parse::<usize>" and is_str(rty) and not args:
                 return k(f"(prim_parse_usize {rt})", ("res", "N", ("named", "ParseIntError")))
+            if rty == "N" and len(args) == 1 and base in ("saturating_sub", "checked_sub", "min", "max", "saturating_add", "wrapping_add"):
+                fn = {"saturating_sub": "(fun a b => a - b)", "min": "N.min", "max": "N.max",
+                      "checked_sub": "(fun a b => if a <? b then None else Some (a - b))",
+                      "saturating_add": "(fun a b => N.min (a + b) USIZE_MAX)", "wrapping_add": "(fun a b => (a + b) mod (USIZE_MAX + 1))"}[base]
+                return self.tr(args[0], env, cx, lambda at, _: k(f"({fn} {rt} {at})", ("opt", "N") if base == "checked_sub" else "N"))
+            if rty == "bool" and base == "then_some" and len(args) == 1:
+                return self.tr(args[0], env, cx, lambda at, aty: k(f"(if {rt} then Some {at} else None)", ("opt", aty)))
             if base == "checked_add" and rty == "N" and len(args) == 1:
                 return self.tr(args[0], env, cx, lambda at, _: k(f"(checked_add_usize {rt} {at})", ("opt", "N")))
             if base == "into_inner" and tyname == "RangeInclusive":
@@ -645,6 +666,8 @@ class Emitter:
                     return self.tr(args[0], env, cx, lambda at, aty: k(f"({base} {st} {arg_as_str(self.coerce(at, aty, 'str') if aty != 'N' else at, aty)})", bty))
                 if base in ("rsplit_once", "split_once") and len(args) == 1 and args[0][0] == "char":
                     return k(f"({base} {args[0][1]} {st})", ("opt", ("tuple", ["str", "str"])))
+                if base == "contains" and len(args) == 1 and args[0][0] == "char":
+                    return k(f"(match findN {args[0][1]} {st} with Some _ => true | None => false end)", "bool")
                 if base == "find" and len(args) == 1 and args[0][0] == "char":
                     return k(f"(findN {args[0][1]} {st})", ("opt", "N"))
                 if base == "rfind" and len(args) == 1 and args[0][0] == "char":
